@@ -1,0 +1,475 @@
+//go:build verif
+
+// Contracts of the legacy root package for /verif (build tag verif: not part of the normal build).
+// Syntax and meaning: /verif/DESIGN.md.
+
+package jsonpatch
+
+// Package-level error values (as in v5): what errors.Is reports for each; assumed established by the package
+// initialiser and never reassigned.
+//@ ginv sentinel-missing: ErrMissing != nil && isMissing(ErrMissing) && !isTestFailed(ErrMissing) && !isInvalidIndex(ErrMissing) && !isInvalid(ErrMissing) && !isCopyLimit(ErrMissing)
+//@ ginv sentinel-testfailed: ErrTestFailed != nil && isTestFailed(ErrTestFailed) && !isMissing(ErrTestFailed) && !isInvalidIndex(ErrTestFailed) && !isInvalid(ErrTestFailed) && !isCopyLimit(ErrTestFailed)
+//@ ginv sentinel-invalidindex: ErrInvalidIndex != nil && isInvalidIndex(ErrInvalidIndex) && !isMissing(ErrInvalidIndex) && !isTestFailed(ErrInvalidIndex) && !isInvalid(ErrInvalidIndex) && !isCopyLimit(ErrInvalidIndex)
+//@ ginv sentinel-invalid: ErrInvalid != nil && isInvalid(ErrInvalid) && !isMissing(ErrInvalid) && !isTestFailed(ErrInvalid) && !isInvalidIndex(ErrInvalid) && !isCopyLimit(ErrInvalid)
+//@ ginv sentinel-unknowntype: ErrUnknownType != nil && !isInvalid(ErrUnknownType) && !isMissing(ErrUnknownType) && !isTestFailed(ErrUnknownType) && !isInvalidIndex(ErrUnknownType) && !isCopyLimit(ErrUnknownType)
+//@ ginv sentinel-unwrap: unwrap(ErrMissing) == nil && unwrap(ErrTestFailed) == nil && unwrap(ErrInvalid) == nil && unwrap(ErrInvalidIndex) == nil && unwrap(ErrUnknownType) == nil
+//@ ginv merge-errors: ErrBadJSONDoc != nil && ErrBadJSONPatch != nil && errBadMergeTypes != nil
+
+// ---- container primitives (C18: one-level RFC 6902 effects; C04: no panic) ----
+
+//@ func (*partialDoc).get
+//@   requires recv: d != nil
+//@   modifies nothing
+//@   ensures[C18] always-succeeds: err == nil
+//@   ensures[C18] value: result.0 == (key in *d ? (*d)[key] : nil)
+//@   ensures[C04] child: rKid(result.0)
+
+//@ func (*partialDoc).set
+//@   requires recv: d != nil && allocated(d) && rKid(val)
+//@   modifies mapof(*d)
+//@   ensures[C04,C18] nil-document: *d == nil ==> err != nil && isInvalid(err)
+//@   ensures[C18] ok-iff: (err == nil) <==> *d != nil
+//@   ensures[C18] stored: err == nil ==> key in *d && (*d)[key] == val
+//@   ensures[C18] others: forall k string :: k != key ==> ((k in *d) <==> old(k in *d)) && (*d)[k] == old((*d)[k])
+//@   ensures[C18] attrs: !isTestFailed(err) && !isCopyLimit(err) && !isMissing(err) && !isInvalidIndex(err)
+
+//@ func (*partialDoc).add
+//@   requires recv: d != nil && allocated(d) && rKid(val)
+//@   modifies mapof(*d)
+//@   ensures[C04,C18] nil-document: *d == nil ==> err != nil && isInvalid(err)
+//@   ensures[C18] ok-iff: (err == nil) <==> *d != nil
+//@   ensures[C18] stored: err == nil ==> key in *d && (*d)[key] == val
+//@   ensures[C18] others: forall k string :: k != key ==> ((k in *d) <==> old(k in *d)) && (*d)[k] == old((*d)[k])
+//@   ensures[C18] attrs: !isTestFailed(err) && !isCopyLimit(err) && !isMissing(err) && !isInvalidIndex(err)
+
+//@ func (*partialDoc).remove
+//@   requires recv: d != nil && allocated(d)
+//@   modifies mapof(*d)
+//@   ensures[C18] removed-iff: (err == nil) <==> old(key in *d)
+//@   ensures[C18] gone: !(key in *d)
+//@   ensures[C18] others: forall k string :: k != key ==> ((k in *d) <==> old(k in *d)) && (*d)[k] == old((*d)[k])
+//@   ensures[C18] missing: err != nil ==> isMissing(err)
+//@   ensures[C18] attrs: !isTestFailed(err) && !isCopyLimit(err) && !isInvalidIndex(err)
+
+//@ func (*partialArray).get
+//@   requires recv: d != nil
+//@   modifies nothing
+//@   let n = len(*d)
+//@   ensures[C18] ok-iff: (err == nil) <==> idxRefOK(key, n, SupportNegativeIndices)
+//@   ensures[C18] value: err == nil ==> result.0 == (*d)[idxRefVal(key, n)]
+//@   ensures[C18] nil-on-error: err != nil ==> result.0 == nil
+//@   ensures[C04] child: rKid(result.0)
+//@   ensures[C18] attrs: !isTestFailed(err) && !isMissing(err) && !isCopyLimit(err)
+//@   ensures[C18] invalid-index: err != nil && atoiOK(key) ==> isInvalidIndex(err)
+
+//@ func (*partialArray).set
+//@   requires recv: d != nil && allocated(d) && rKid(val)
+//@   requires exists: atoiOK(key) ==> idxRefOK(key, len(*d), SupportNegativeIndices)
+//@   modifies elems(*d)
+//@   let n = len(*d)
+//@   ensures[C18] ok: (err == nil) <==> atoiOK(key)
+//@   ensures[C18] header: *d == old(*d)
+//@   ensures[C18] at: err == nil ==> (*d)[idxRefVal(key, n)] == val
+//@   ensures[C18] others: forall j int :: 0 <= j && j < n && (err != nil || j != idxRefVal(key, n)) ==> (*d)[j] == old((*d)[j])
+//@   ensures[C18] attrs: !isTestFailed(err) && !isMissing(err) && !isCopyLimit(err)
+
+//@ func (*partialArray).add
+//@   requires recv: d != nil && allocated(d) && rKid(val) && rAryOwned(d)
+//@   modifies *d, elems(*d)
+//@   let n = old(len(*d))
+//@   let neg = SupportNegativeIndices
+//@   let ix = idxAddVal(key, n)
+//@   ensures[C18] ok-iff: (err == nil) <==> idxAddOK(key, n, neg)
+//@   ensures[C18] len: err == nil ==> len(*d) == n + 1
+//@   ensures[C18] at: err == nil ==> (*d)[ix] == val
+//@   ensures[C18] below: err == nil ==> forall j int :: 0 <= j && j < ix ==> (*d)[j] == old((*d)[j])
+//@   ensures[C18] above: err == nil ==> forall j int :: ix < j && j <= n ==> (*d)[j] == old((*d)[j-1])
+//@   ensures[C18] unchanged-on-error: err != nil ==> *d == old(*d)
+//@   ensures[C18] old-cells-kept: forall j int :: 0 <= j && j < n ==> old(*d)[j] == old((*d)[j])
+//@   ensures[C18] attrs: !isTestFailed(err) && !isMissing(err) && !isCopyLimit(err)
+//@   ensures[C18] invalid-index: err != nil && atoiOK(key) ==> isInvalidIndex(err)
+
+//@ func (*partialArray).remove
+//@   requires recv: d != nil && allocated(d) && rAryOwned(d)
+//@   modifies *d
+//@   let n = old(len(*d))
+//@   let neg = SupportNegativeIndices
+//@   let ix = idxRefVal(key, n)
+//@   ensures[C18] ok-iff: (err == nil) <==> idxRefOK(key, n, neg)
+//@   ensures[C18] len: err == nil ==> len(*d) == n - 1
+//@   ensures[C18] below: err == nil ==> forall j int :: 0 <= j && j < ix ==> (*d)[j] == old((*d)[j])
+//@   ensures[C18] above: err == nil ==> forall j int :: ix <= j && j < n - 1 ==> (*d)[j] == old((*d)[j+1])
+//@   ensures[C18] unchanged-on-error: err != nil ==> *d == old(*d)
+//@   ensures[C18] old-cells-kept: forall j int :: 0 <= j && j < n ==> old(*d)[j] == old((*d)[j])
+//@   ensures[C18] attrs: !isTestFailed(err) && !isMissing(err) && !isCopyLimit(err)
+//@   ensures[C18] invalid-index: err != nil && atoiOK(key) ==> isInvalidIndex(err)
+
+// ---- nodes ----
+
+//@ func newLazyNode
+//@   requires raw: raw != nil ==> allocated(raw) && allocated(*raw)
+//@   modifies nothing
+//@   ensures[C18,C09] fresh: result != nil && fresh(result) && result.raw == raw && result.doc == nil && result.ary == nil && result.which == eRaw
+
+//@ func (*lazyNode).MarshalJSON
+//@   requires recv: n != nil
+//@   modifies nothing
+//@   ensures[C18] attrs: !isTestFailed(err) && !isMissing(err) && !isCopyLimit(err) && !isInvalidIndex(err) && !isInvalid(err)
+//@   ensures[C18] out: err == nil ==> result.0 != nil && fresh(result.0) && wf(result.0)
+//@   ensures[C18] null-value: n.which == eRaw && n.raw == nil ==> err == nil && bytes(result.0) == nullText
+//@   ensures[C18] raw-text: n.which == eRaw && n.raw != nil && wf(*n.raw) ==> err == nil && bytes(result.0) == compactOf(bytes(*n.raw))
+
+//@ func (*lazyNode).UnmarshalJSON
+//@   requires recv: n != nil && allocated(n) && n.doc == nil && n.ary == nil
+//@   ensures[C18] ok: err == nil && n.which == eRaw && n.raw != nil && fresh(n.raw) && fresh(*n.raw) && bytes(*n.raw) == bytes(data)
+
+//@ func deepCopy
+//@   requires src: rKid(src)
+//@   modifies nothing
+//@   ensures[C18] nil: src == nil ==> result.0 == nil && result.1 == 0 && result.2 == nil
+//@   ensures[C18,C09] fresh-copy: src != nil && result.2 == nil ==> result.0 != nil && fresh(result.0) && result.0.which == eRaw && result.0.doc == nil && result.0.ary == nil && result.0.raw != nil && fresh(result.0.raw) && fresh(*result.0.raw) && wf(*result.0.raw)
+//@   ensures[C18] size: src != nil && result.2 == nil ==> result.1 == len(*result.0.raw) && result.1 >= 0
+//@   ensures[C18] raw-ok: src != nil && src.which == eRaw && src.raw != nil && old(wf(*src.raw)) ==> result.2 == nil
+//@   ensures[C18] same-text: src != nil && src.which == eRaw && src.raw != nil && old(wf(*src.raw)) ==> bytes(*result.0.raw) == old(compactOf(bytes(*src.raw)))
+//@   ensures[C18] null-copied: src != nil && src.which == eRaw && src.raw == nil ==> result.2 == nil && kind(val(*result.0.raw)) == KNull
+//@   ensures[C04] size-bound: 0 <= result.1 && result.1 <= 72057594037927936
+//@   ensures[C18] attrs: !isTestFailed(result.2) && !isMissing(result.2) && !isCopyLimit(result.2) && !isInvalidIndex(result.2)
+//@   ensures[C18] nil-on-error: result.2 != nil ==> result.0 == nil
+
+//@ func (*lazyNode).intoDoc
+//@   requires node: rNodeOK(n)
+//@   modifies n.doc, n.which
+//@   ensures[C18] parsed-iff: (err == nil) <==> (n.which == eDoc)
+//@   ensures[C18] result: err == nil ==> result.0 == &n.doc
+//@   ensures[C18] already: old(n.which) == eDoc ==> err == nil && n.doc == old(n.doc)
+//@   ensures[C18] nil-on-error: err != nil ==> result.0 == nil && n.which == old(n.which)
+//@   ensures[C18] frame-parsed: old(n.which) == eAry ==> n.which == eAry || (n.raw != nil && wf(*n.raw) && kind(val(*n.raw)) == KNull)
+//@   ensures[C19] kept: rDocsKept()
+//@   ensures[C18] object-iff: old(n.which) != eDoc && n.raw != nil && wf(*n.raw) ==> ((err == nil) <==> (kind(val(*n.raw)) == KObj || kind(val(*n.raw)) == KNull))
+//@   ensures[C18] object-map: old(n.which) != eDoc && err == nil ==> ((n.doc != nil) <==> kind(val(*n.raw)) == KObj)
+//@   ensures[C18] ill-formed: old(n.which) != eDoc && n.raw != nil && !wf(*n.raw) ==> err != nil
+//@   ensures[C18] raw-kept: n.raw == old(n.raw)
+//@   ensures[C18] attrs: !isTestFailed(err) && !isMissing(err) && !isCopyLimit(err) && !isInvalidIndex(err)
+
+//@ func (*lazyNode).intoAry
+//@   requires node: rNodeOK(n)
+//@   modifies n.ary, n.which
+//@   ensures[C18] parsed-iff: (err == nil) <==> (n.which == eAry)
+//@   ensures[C18] result: err == nil ==> result.0 == &n.ary
+//@   ensures[C18] already: old(n.which) == eAry ==> err == nil && n.ary == old(n.ary)
+//@   ensures[C18] nil-on-error: err != nil ==> result.0 == nil && n.which == old(n.which)
+//@   ensures[C19] kept: rDocsKept()
+//@   ensures[C18] array-iff: old(n.which) != eAry && n.raw != nil && wf(*n.raw) ==> ((err == nil) <==> (kind(val(*n.raw)) == KArr || kind(val(*n.raw)) == KNull))
+//@   ensures[C18] ill-formed: old(n.which) != eAry && n.raw != nil && !wf(*n.raw) ==> err != nil
+//@   ensures[C18] raw-kept: n.raw == old(n.raw)
+//@   ensures[C18] attrs: !isTestFailed(err) && !isMissing(err) && !isCopyLimit(err) && !isInvalidIndex(err)
+
+//@ func (*lazyNode).compact
+//@   requires node: n != nil
+//@   modifies nothing
+//@   ensures[C19] nil-raw: n.raw == nil ==> result == nil
+//@   ensures[C19] compacted: n.raw != nil && wf(*n.raw) ==> bytes(result) == compactOf(bytes(*n.raw))
+//@   ensures[C19] ill-formed: n.raw != nil && !wf(*n.raw) ==> result == *n.raw
+
+//@ func (*lazyNode).tryDoc
+//@   requires node: rNodeOK(n) && n.which == eRaw
+//@   modifies n.doc, n.which
+//@   ensures[C19] result: n.raw != nil && wf(*n.raw) ==> (result <==> (kind(val(*n.raw)) == KObj || kind(val(*n.raw)) == KNull))
+//@   ensures[C19] unparsable: n.raw == nil || !wf(*n.raw) ==> !result
+//@   ensures[C19] parsed: result ==> n.which == eDoc && ((n.doc != nil) <==> kind(val(*n.raw)) == KObj)
+//@   ensures[C19] unchanged: !result ==> n.which == old(n.which)
+//@   ensures[C19] raw-kept: n.raw == old(n.raw)
+
+//@ func (*lazyNode).tryAry
+//@   requires node: rNodeOK(n) && n.which != eAry
+//@   modifies n.ary, n.which
+//@   ensures[C19] result: n.raw != nil && wf(*n.raw) ==> (result <==> (kind(val(*n.raw)) == KArr || kind(val(*n.raw)) == KNull))
+//@   ensures[C19] unparsable: n.raw == nil || !wf(*n.raw) ==> !result
+//@   ensures[C19] parsed: result ==> n.which == eAry && ((n.ary != nil) <==> kind(val(*n.raw)) == KArr)
+//@   ensures[C19] unchanged: !result ==> n.which == old(n.which)
+//@   ensures[C19] raw-kept: n.raw == old(n.raw)
+
+// ---- operations as decoded ----
+
+//@ func (Operation).Kind
+//@   requires op: rOpOK(o)
+//@   modifies nothing
+//@   ensures[C18] kind: result == rOpKind(o)
+
+//@ func (Operation).Path
+//@   requires op: rOpOK(o)
+//@   modifies nothing
+//@   ensures[C18] ok-iff: (err == nil) <==> rOkStr(o, "path")
+//@   ensures[C18] value: err == nil && kind(val(*o["path"])) == KStr ==> result.0 == strval(val(*o["path"]))
+//@   ensures[C18] attrs: !isTestFailed(err) && !isCopyLimit(err) && !isInvalidIndex(err)
+
+//@ func (Operation).From
+//@   requires op: rOpOK(o)
+//@   modifies nothing
+//@   ensures[C18] ok-iff: (err == nil) <==> rOkStr(o, "from")
+//@   ensures[C18] value: err == nil && kind(val(*o["from"])) == KStr ==> result.0 == strval(val(*o["from"]))
+//@   ensures[C18] attrs: !isTestFailed(err) && !isCopyLimit(err) && !isInvalidIndex(err)
+
+//@ func (Operation).ValueInterface
+//@   requires op: rOpOK(o)
+//@   modifies nothing
+//@   ensures[C18] ok-iff: (err == nil) <==> rPresent(o, "value")
+//@   ensures[C18] value: rPresent(o, "value") ==> iv(result.0) == val(*o["value"])
+
+//@ func (Operation).value
+//@   requires op: rOpOK(o)
+//@   modifies nothing
+//@   ensures[C18] absent: !("value" in o) ==> result == nil
+//@   ensures[C18,C09] present: "value" in o ==> result != nil && fresh(result) && result.which == eRaw && result.doc == nil && result.ary == nil && result.raw == o["value"]
+
+//@ func isArray
+//@   modifies nothing
+//@   ensures[C18] array-if: wf(buf) && result ==> kind(val(bytes(buf))) == KArr
+//@   loop 1
+//@   invariant bounds: -1 <= rangeindex && rangeindex < len(buf)
+//@   invariant before-first-token: wf(buf) ==> rangeindex < fnw(bytes(buf))
+//@   invariant bridge: rangeindex + 1 < len(buf) ==> bytes(buf)[rangeindex + 1] == buf[rangeindex + 1]
+//@   invariant skipped-ws: forall j int :: 0 <= j && j <= rangeindex ==> buf[j] == ' ' || buf[j] == '\n' || buf[j] == '\t'
+
+//@ func decodePatchKey
+//@   modifies nothing
+//@   ensures[C18] unescape: result == unescape(k)
+
+//@ func (*AccumulatedCopySizeError).Error
+//@   requires recv: a != nil
+//@   modifies nothing
+
+//@ func (*ArraySizeError).Error
+//@   requires recv: a != nil
+//@   modifies nothing
+
+//@ func NewAccumulatedCopySizeError
+//@   modifies nothing
+//@   ensures[C18] fresh: result != nil && fresh(result) && result.limit == l && result.accumulated == a
+
+//@ func NewArraySizeError
+//@   modifies nothing
+
+// ---- structural equality (C19) ----
+
+//@ func (*lazyNode).equal
+//@   requires recv: rNodeOK(n)
+//@   requires other: o == nil || rNodeOK(o)
+//@   modifies region(lazyNode.which), region(lazyNode.doc), region(lazyNode.ary)
+//@   ensures[C18,C19] stable: rStable()
+//@   ensures[C19] absent-operand: o == nil ==> !result
+//@   loop 1
+//@   invariant stable: rStable()
+//@   invariant both-objects: n.which == eDoc && o != nil && o.which == eDoc && n.doc == atentry(n.doc) && o.doc == atentry(o.doc)
+//@   loop 2
+//@   invariant stable: rStable()
+//@   invariant both-arrays: n.which == eAry && o != nil && o.which == eAry && len(n.ary) == len(o.ary) && n.ary == atentry(n.ary) && o.ary == atentry(o.ary)
+
+//@ func Equal
+
+// ---- pointer walk and the six operations (C18) ----
+
+//@ func findObject
+//@   requires args: pd != nil && rConOK(*pd)
+//@   modifies region(lazyNode.which), region(lazyNode.doc), region(lazyNode.ary)
+//@   ensures[C18] stable: rStable()
+//@   ensures[C18] root-kept: *pd == old(*pd)
+//@   ensures[C04,C18] root-ok: rConOK(*pd)
+//@   ensures[C18] nil-key: result.0 == nil ==> result.1 == ""
+//@   ensures[C04,C18] container: result.0 != nil ==> rConOK(result.0)
+//@   ensures[C18] key-decoded: result.0 != nil ==> result.1 == unescape(tok(path, ntok(path) - 1))
+//@   ensures[C18] needs-slash: ntok(path) < 2 ==> result.0 == nil
+//@   ensures[C18] one-level: ntok(path) == 2 ==> result.0 == old(*pd)
+//@   loop 1
+//@   invariant container: rConOK(doc) && rConOK(*pd) && *pd == old(*pd)
+//@   invariant stable: rStable()
+//@   invariant[C18] one-level: rangeindex == -1 ==> doc == old(*pd)
+
+//@ func (Patch).add
+//@   requires args: doc != nil && rConOK(*doc)
+//@   requires op: rOpOK(op)
+//@   ensures[C04,C18] container: rConOK(*doc) && *doc == old(*doc)
+//@   ensures[C18] attrs: !isTestFailed(err) && !isCopyLimit(err)
+//@   bind con = findObject#1.0
+//@   bind key = findObject#1.1
+//@   bind v = value#1.0
+//@   let neg = SupportNegativeIndices
+//@   ensures[C18] missing-parent: reached(findObject#1) && con == nil ==> isMissing(err)
+//@   ensures[C18] object-member-set: reached(findObject#1) && con != nil && rIsDoc(con) && *rDocOf(con) != nil ==> err == nil && key in *rDocOf(con) && (*rDocOf(con))[key] == v
+//@   ensures[C18] array-ok-iff: reached(findObject#1) && con != nil && rIsAry(con) ==> ((err == nil) <==> idxAddOK(key, at(findObject#1, len(*rAryOf(con))), neg))
+//@   ensures[C18] array-inserted: reached(findObject#1) && con != nil && rIsAry(con) && err == nil ==> len(*rAryOf(con)) == at(findObject#1, len(*rAryOf(con))) + 1 && (*rAryOf(con))[idxAddVal(key, at(findObject#1, len(*rAryOf(con))))] == v
+//@   ensures[C18] value-is-patch-value: reached(value#1) && "value" in op ==> v != nil && v.raw == op["value"]
+
+//@ func (Patch).remove
+//@   requires args: doc != nil && rConOK(*doc)
+//@   requires op: rOpOK(op)
+//@   ensures[C04,C18] container: rConOK(*doc) && *doc == old(*doc)
+//@   ensures[C18] attrs: !isTestFailed(err) && !isCopyLimit(err)
+//@   bind con = findObject#1.0
+//@   bind key = findObject#1.1
+//@   let neg = SupportNegativeIndices
+//@   ensures[C18] missing-parent: reached(findObject#1) && con == nil ==> isMissing(err)
+//@   ensures[C18] object-member-removed: reached(findObject#1) && con != nil && rIsDoc(con) && at(findObject#1, key in *rDocOf(con)) ==> err == nil && !(key in *rDocOf(con))
+//@   ensures[C18] object-member-absent: reached(findObject#1) && con != nil && rIsDoc(con) && !at(findObject#1, key in *rDocOf(con)) ==> err != nil && isMissing(err)
+//@   ensures[C18] array-element-removed: reached(findObject#1) && con != nil && rIsAry(con) && idxRefOK(key, at(findObject#1, len(*rAryOf(con))), neg) ==> err == nil && len(*rAryOf(con)) == at(findObject#1, len(*rAryOf(con))) - 1
+//@   ensures[C18] array-element-absent: reached(findObject#1) && con != nil && rIsAry(con) && !idxRefOK(key, at(findObject#1, len(*rAryOf(con))), neg) ==> err != nil && *rAryOf(con) == at(findObject#1, *rAryOf(con))
+
+//@ func (Patch).replace
+//@   requires args: doc != nil && rConOK(*doc)
+//@   requires op: rOpOK(op)
+//@   ensures[C04,C18] container: rConOK(*doc)
+//@   ensures[C18] attrs: !isTestFailed(err) && !isCopyLimit(err)
+//@   bind con = findObject#1.0
+//@   bind key = findObject#1.1
+//@   bind v = value#2.0
+//@   let neg = SupportNegativeIndices
+//@   ensures[C18] missing-parent: reached(findObject#1) && con == nil ==> isMissing(err)
+//@   ensures[C18] bad-index: reached(findObject#1) && con != nil && rIsAry(con) && !idxRefOK(key, at(findObject#1, len(*rAryOf(con))), neg) ==> err != nil
+//@   ensures[C18] object-member-replaced: reached(findObject#1) && con != nil && rIsDoc(con) && at(findObject#1, key in *rDocOf(con)) ==> err == nil && (*rDocOf(con))[key] == v
+//@   ensures[C18] array-element-replaced: reached(findObject#1) && con != nil && rIsAry(con) && idxRefOK(key, at(findObject#1, len(*rAryOf(con))), neg) ==> err == nil && len(*rAryOf(con)) == at(findObject#1, len(*rAryOf(con))) && (*rAryOf(con))[idxRefVal(key, len(*rAryOf(con)))] == v
+
+//@ func (Patch).move
+//@   requires args: doc != nil && rConOK(*doc)
+//@   requires op: rOpOK(op)
+//@   ensures[C04,C18] container: rConOK(*doc) && *doc == old(*doc)
+//@   ensures[C18] attrs: !isTestFailed(err) && !isCopyLimit(err)
+//@   bind con = findObject#1.0
+//@   bind key = findObject#1.1
+//@   bind dst = findObject#2.0
+//@   bind dstKey = findObject#2.1
+//@   let neg = SupportNegativeIndices
+//@   ensures[C18] missing-parent: reached(findObject#1) && con == nil ==> isMissing(err)
+//@   ensures[C18] missing-destination: reached(findObject#2) && dst == nil ==> isMissing(err)
+//@   ensures[C18] missing-source: reached(findObject#1) && con != nil && !at(findObject#1, rConHas(con, key, neg)) ==> err != nil
+//@   ensures[C18] removed-before-resolving-object: reached(findObject#2) && rIsDoc(con) ==> pre(findObject#2, !(key in *rDocOf(con)))
+//@   ensures[C18] removed-before-resolving-array: reached(findObject#2) && rIsAry(con) ==> pre(findObject#2, len(*rAryOf(con))) == at(findObject#1, len(*rAryOf(con))) - 1
+//@   ensures[C18] object-destination: reached(findObject#2) && dst != nil && rIsDoc(dst) && *rDocOf(dst) != nil ==> err == nil && dstKey in *rDocOf(dst) && (*rDocOf(dst))[dstKey] == at(findObject#1, rConAt(con, key))
+//@   ensures[C18] array-destination: reached(findObject#2) && dst != nil && rIsAry(dst) && err == nil ==> (*rAryOf(dst))[idxAddVal(dstKey, at(findObject#2, len(*rAryOf(dst))))] == at(findObject#1, rConAt(con, key))
+
+//@ func (Patch).test
+//@   requires args: doc != nil && rConOK(*doc)
+//@   requires op: rOpOK(op)
+//@   ensures[C04,C18] container: rConOK(*doc) && *doc == old(*doc)
+//@   ensures[C18] attrs: !isCopyLimit(err)
+//@   bind con = findObject#1.0
+//@   bind key = findObject#1.1
+//@   let neg = SupportNegativeIndices
+//@   ensures[C18] missing-parent: reached(findObject#1) && con == nil ==> isMissing(err) && !isTestFailed(err)
+//@   ensures[C18] bad-index-is-not-test-failed: reached(findObject#1) && con != nil && rIsAry(con) && !at(findObject#1, rConHas(con, key, neg)) ==> err != nil && !isTestFailed(err)
+//@   ensures[C18] decoded-null-vs-value: reached(findObject#1) && con != nil && at(findObject#1, rConHas(con, key, neg) && rConAt(con, key) == nil) ==> ((err == nil) <==> (!("value" in op) || op["value"] == nil))
+//@   ensures[C18] mismatch-is-test-failed: reached(findObject#1) && con != nil && at(findObject#1, rConHas(con, key, neg)) && err != nil ==> isTestFailed(err)
+
+//@ func (Patch).copy
+//@   requires args: doc != nil && accumulatedCopySize != nil && rConOK(*doc)
+//@   requires op: rOpOK(op)
+//@   requires total: *accumulatedCopySize >= 0
+//@   assume A-sum: *accumulatedCopySize <= 4611686018427387904
+//@   ensures[C04,C18] container: rConOK(*doc) && *doc == old(*doc)
+//@   ensures[C18] attrs: !isTestFailed(err)
+//@   ensures[C18] total: *accumulatedCopySize >= old(*accumulatedCopySize)
+//@   bind con = findObject#1.0
+//@   bind dst = findObject#2.0
+//@   bind dstKey = findObject#2.1
+//@   bind cp = deepCopy#1.0
+//@   bind sz = deepCopy#1.1
+//@   bind dcErr = deepCopy#1.2
+//@   ensures[C18] missing-parent: reached(findObject#1) && con == nil ==> isMissing(err) && !isCopyLimit(err)
+//@   ensures[C18] missing-destination: reached(findObject#2) && dst == nil ==> isMissing(err) && !isCopyLimit(err)
+//@   ensures[C18] accumulated: reached(deepCopy#1) && dcErr == nil ==> *accumulatedCopySize == old(*accumulatedCopySize) + sz
+//@   ensures[C18] limit-iff: isCopyLimit(err) <==> (reached(deepCopy#1) && dcErr == nil && AccumulatedCopySizeLimit > 0 && *accumulatedCopySize > AccumulatedCopySizeLimit)
+//@   ensures[C18] object-member-copied: reached(deepCopy#1) && dcErr == nil && !isCopyLimit(err) && rIsDoc(dst) && *rDocOf(dst) != nil ==> err == nil && dstKey in *rDocOf(dst) && (*rDocOf(dst))[dstKey] == cp
+//@   ensures[C18] array-element-copied: reached(deepCopy#1) && dcErr == nil && !isCopyLimit(err) && rIsAry(dst) && err == nil ==> (*rAryOf(dst))[idxAddVal(dstKey, at(deepCopy#1, len(*rAryOf(dst))))] == cp
+//@   ensures[C18,C09] independent-duplicate: reached(deepCopy#1) && dcErr == nil && cp != nil ==> fresh(cp) && fresh(cp.raw) && cp.which == eRaw
+
+// ---- exported entry points ----
+
+//@ func DecodePatch
+//@   ensures[C18] nil-on-error: err != nil ==> result.0 == nil
+//@   ensures[C18] rejects-ill-formed: !wf(buf) ==> err != nil
+//@   ensures[C04,C18] patch-ok: err == nil ==> rPatchOK(result.0)
+
+//@ func (Patch).Apply
+//@   requires patch: rPatchOK(p)
+//@   ensures[C18] nothing-with-error: err != nil ==> result.0 == nil
+
+//@ func (Patch).ApplyIndent
+//@   requires patch: rPatchOK(p)
+//@   ensures[C18] nothing-with-error: err != nil ==> result.0 == nil
+//@   ensures[C18] rejects-ill-formed: len(doc) > 0 && !wf(doc) ==> err != nil
+//@   loop 1
+//@   invariant state: rConOK(*pd) && err == nil && *accumulatedCopySize >= 0
+
+// ---- RFC 7396 merge (C19) ----
+
+//@ func pruneNulls
+//@   callees[C19] intoDoc, pruneDocNulls, intoAry, pruneAryNulls
+//@   requires node: n != nil && rNodeOK(n) && rTextOK(n)
+//@   requires tree: rNoNullKids()
+//@   modifies region(lazyNode.which), region(lazyNode.doc), region(lazyNode.ary), region(map map[string]*lazyNode)
+//@   ensures[C19] tree: rNoNullKids()
+//@   ensures[C19] kept: rDocsKept()
+
+//@ func pruneDocNulls
+//@   callees[C19] pruneNulls
+//@   requires doc: doc != nil && allocated(doc)
+//@   requires tree: rNoNullKids()
+//@   modifies region(lazyNode.which), region(lazyNode.doc), region(lazyNode.ary), region(map map[string]*lazyNode)
+//@   ensures[C19] same-doc: result == doc
+//@   ensures[C19] tree: rNoNullKids()
+//@   ensures[C19] kept: rDocsKept()
+//@   loop 1
+//@   invariant tree: rNoNullKids()
+//@   invariant kept: rDocsKept()
+
+//@ func pruneAryNulls
+//@   callees[C19] none
+//@   requires ary: ary != nil && allocated(ary) && rAryOwned(ary)
+//@   requires tree: rNoNullKids()
+//@   modifies *ary
+//@   ensures[C19] same-array: result == ary
+//@   ensures[C19] arrays-verbatim: len(*ary) == old(len(*ary))
+//@   ensures[C19] tree: rNoNullKids()
+//@   loop 1
+//@   invariant copied: len(newAry) == rangeindex + 1 && *ary == old(*ary) && newAry != nil && fresh(newAry)
+//@   invariant tree: rNoNullKids()
+
+//@ func merge
+//@   callees[C19] intoDoc, pruneNulls, mergeDocs
+//@   callsite[C19] pruneNulls#1 prunes-only-a-patch-that-replaces-a-non-object: err != nil
+//@   requires nodes: cur != nil && patch != nil && rNodeOK(cur) && rNodeOK(patch) && rTextOK(cur) && rTextOK(patch)
+//@   requires tree: rNoNullKids()
+//@   modifies region(lazyNode.which), region(lazyNode.doc), region(lazyNode.ary), region(map map[string]*lazyNode)
+//@   ensures[C19] result: result == cur || result == patch
+//@   ensures[C19] tree: rNoNullKids()
+//@   ensures[C19] kept: rDocsKept()
+
+//@ func mergeDocs
+//@   callees[C19] pruneNulls, merge
+//@   callsite[C19] pruneNulls#1 new-member-pruned-only-when-applying: !mergeMerge
+//@   callsite[C19] merge#1 merges-current-with-patch-member: arg_cur == cur && arg_patch == v && (arg_mergeMerge <==> mergeMerge)
+//@   requires docs: doc != nil && patch != nil && allocated(doc) && allocated(patch) && *doc != nil
+//@   requires tree: rNoNullKids()
+//@   modifies region(lazyNode.which), region(lazyNode.doc), region(lazyNode.ary), region(map map[string]*lazyNode)
+//@   ensures[C19] tree: rNoNullKids()
+//@   ensures[C19] kept: rDocsKept()
+//@   loop 1
+//@   invariant tree: rNoNullKids()
+//@   invariant kept: rDocsKept()
+
+//@ func doMergePatch
+//@   assume A-merge-entry: rNoNullKids()
+//@   ensures[C19] rejects-ill-formed-doc: !wf(docData) ==> err != nil && result.0 == nil
+//@   ensures[C19] rejects-ill-formed-patch: !wf(patchData) ==> err != nil && result.0 == nil
+
+//@ func MergePatch
+//@ func MergeMergePatches
+//@ func resemblesJSONArray
+//@   modifies nothing
+//@ func CreateMergePatch
+//@ func createObjectMergePatch
+//@ func createArrayMergePatch
+//@ func matchesArray
+//@   modifies nothing
+//@ func matchesValue
+//@   modifies nothing
+//@ func getDiff
